@@ -132,6 +132,19 @@ func runCheck(prop, tier string, writeLock bool) int {
 		fmt.Println("cannot read props.json:", err)
 		return 2
 	}
+	// per-property configuration files (one per property, so that they can be edited independently)
+	if more, _ := filepath.Glob(filepath.Join(verifRoot, "props.d", "*.json")); len(more) > 0 {
+		for _, f := range more {
+			var c map[string]PropConfig
+			if err := loadJSON(f, &c); err != nil {
+				fmt.Println("cannot read", f, err)
+				return 2
+			}
+			for k, v := range c {
+				cfgs[k] = v
+			}
+		}
+	}
 	cfg, ok := cfgs[prop]
 	if !ok {
 		fmt.Println("unknown property", prop)
